@@ -5,6 +5,7 @@ sys.path.insert(0, HERE)
 sys.path.insert(0, '/repo')
 props = [json.loads(l) for l in open(os.path.join(HERE, 'properties.jsonl'))]
 NA = json.load(open(os.path.join(HERE, 'tools', 'not_applicable.json')))
+CLAIMED = set(open(os.path.join(HERE, 'tools', 'claimed.txt')).read().split())
 checks = []
 na = []
 served = []
@@ -12,7 +13,7 @@ for p in props:
     pid = p['id']
     path = os.path.join(HERE, 'harness', pid + '.py')
     meta = None
-    if os.path.exists(path):
+    if os.path.exists(path) and pid in CLAIMED:
         m = importlib.import_module('harness.' + pid)
         meta = getattr(m, 'META', None)
     if meta is None:
